@@ -8,13 +8,13 @@ import (
 )
 
 func main() {
-	all := []string{"rd-safe", "rd-unsafe-cf", "rd-unsafe-cf-nomem", "rd-partial-ucf-nomem", "rd-partial-ucf-nomem-f1", "rd-keep2", "rd-keep3", "mg-safe", "mg-empty"}
+	all := []string{"rd-safe", "rd-unsafe-cf", "rd-unsafe-cf-nomem", "rd-partial-ucf-nomem", "rd-partial-ucf-nomem-f1", "rd-keep2", "rd-keep3", "mg-safe", "mg-empty", "faulty/safe3", "faulty/safe3keep2", "faulty/merge4/sticky"}
 	livecheck.Main(livecheck.Plan{
 		ID:     "C11",
 		Oracle: livecheck.Oracle{Files: true},
 		Quick:  all, QuickBound: 1, QuickBudget: 60 * time.Second,
 		Thorough: all, ThorBound: 2, ThorBudget: 15 * time.Minute,
-		Rule: "(a) every schedule within the deviation bound of 6 scenarios (retention 1, 2, 3; held readers; eager merges): after every storage operation of the recorded trace, once N snapshots were committed at least N snapshot files are loadable with all their segment files; no successful Remove hits a file the writer's root or a held reader refers to; every handle is closed exactly once and none is open, and the lock is free, after everything was closed; (b) every sequence of length <= 5 over {open W1, open W2, batch on W1, close W1, close W2, open reader} on the REAL FileSystemDirectory against a two-state lock model",
+		Rule:        "(a) every schedule within the deviation bound of 8 scenarios (retention 1, 2, 3; held readers; eager merges) and of 3 scenarios in which every directory operation may additionally fail (transient / sticky I/O faults): after every storage operation of the recorded trace, once N snapshots were committed at least N snapshot files are loadable with all their segment files; no successful Remove hits a file the writer's root or a held reader refers to; every handle is closed exactly once and none is open, and the lock is free, after everything was closed; (b) every sequence of length <= 5 over {open W1, open W2, batch on W1, close W1, close W2, open reader} on the REAL FileSystemDirectory against a two-state lock model",
 		Explanation: "stateless exploration on the crashfs device for (a); explicit enumeration of operation sequences on the real directory for (b)",
 		Assumptions: []string{"schedules beyond the deviation bound are not explored"},
 		Post:        lockProtocol,
